@@ -119,6 +119,15 @@ def _impl(tier, seed, search):
                 if ok:
                     L.close(f'crm({nm_})', r[0], crz @ m2, TOL, max(1.0, float(np.max(np.abs(vz)))) * float(np.max(np.abs(m2))), dict(v=vz, m=m2), what=f'motion cross product of a velocity with {nm_} is not [skew(w) skew(v); 0 skew(w)] m', sig='cross:zero-part')
                     L.close(f'crf({nm_})', r[1], -crz.T @ frc, TOL, max(1.0, float(np.max(np.abs(vz)))) * float(np.max(np.abs(frc))), dict(v=vz, f=frc), what=f'force cross product of a velocity with {nm_} is not the negative transpose of the motion cross product', sig='cross:zero-part')
+        # poses within 1e-9 .. 1e-7 of the identity still act through their adjoint (visible on large vectors and in increments)
+        if i % 4 == 1:
+            dsm = g.normal(size=6) * 10.0 ** g.uniform(-9, -7.5); Tsm = SE3.Delta(dsm) if i % 8 == 1 else SE3(*dsm[:3])
+            big = v6() * 1e6 / max(1e-300, float(np.max(np.abs(v6())))); Ads = b.adjoint(Tsm.A) if hasattr(b, 'adjoint') else Tsm.Ad()
+            for cls_ in (SpatialVelocity, SpatialForce):
+                ok, r = L.noraise('SE3(near identity)*vector', lambda: (Tsm * cls_(big)).A, dict(T=Tsm.A, x=big, cls=cls_.__name__), 'near-identity SE3 * spatial vector')
+                if ok:
+                    want_ = Ads @ big if cls_ is SpatialVelocity else Ads.T @ big
+                    L.close('SE3(near identity)*vector', r - big, want_ - big, 1e-6, float(np.max(np.abs(want_ - big))) + 1e-9, dict(T=Tsm.A, x=big, cls=cls_.__name__), what='the increment T*x - x of a near-identity pose is not that of the adjoint', sig='SE3*vector:near-identity')
         ok, r = L.noraise('crf(momentum)', lambda: (SpatialVelocity(vel).cross(SpatialMomentum(frc)), SpatialVelocity(vel) @ SpatialMomentum(frc)), dict(v=vel, h=frc), 'velocity x* momentum')
         if ok:
             L.close('crf(momentum)', r[0].A, -crm.T @ frc, TOL, sv * float(np.max(np.abs(frc))), dict(v=vel, h=frc), what='force cross product applied to a momentum is not the negative transpose of the motion cross product', sig='crf:momentum')
